@@ -173,13 +173,45 @@ def r4_threading(ctx):
     ctx.floor("C11.R4", "loop-carried accumulators in Environments", n, 2)
 
 
+def _missing_helpers(ctx):
+    """module-level predicates of filters.py that say 'missing' = None or NaN: one parameter p, one return `p is None or p != p`"""
+    out = set()
+    for st in ctx.model.modules[EF].tree.body:
+        if isinstance(st, ast.FunctionDef) and len(st.args.args) == 1:
+            P = st.args.args[0].arg
+            rets = [r.value for r in walk_shallow(st) if isinstance(r, ast.Return) and r.value is not None]
+            if len(rets) == 1 and isinstance(rets[0], ast.BoolOp) and isinstance(rets[0].op, ast.Or) and {canon(unparse(v)) for v in rets[0].values} == {canon(f"{P} is None"), canon(f"{P} != {P}")}:
+                out.add(st.name)
+    return out
+
+
+def _miss_kind(test, helpers):
+    """which notion of 'missing' a test uses: 'none' (`x is None`), the name of a None-or-NaN helper (`helper(x)`), or None"""
+    if isinstance(test, ast.BoolOp) and isinstance(test.op, ast.And):
+        test = test.values[0]
+    if isinstance(test, ast.Compare) and len(test.ops) == 1 and isinstance(test.ops[0], ast.Is) and isinstance(test.comparators[0], ast.Constant) and test.comparators[0].value is None:
+        return "none"
+    if isinstance(test, ast.Call) and call_name(test) in helpers and len(test.args) == 1:
+        return call_name(test)
+    return None
+
+
 def r5_missing(ctx):
     ctx.rule("C11.R5", "Impute: the statistic ignores exactly the values (`is not None`) that the apply loop replaces (`is None`), in "
                        "the dense, sparse and scalar arms")
     gi = ctx.fn(EF, "Impute._get_imputation")
     comps = [x for x in walk_shallow(gi) if isinstance(x, ast.ListComp)]
-    ok = len(comps) == 1 and [unparse(i) for i in comps[0].generators[0].ifs] == [f"{unparse(comps[0].generators[0].target)} is not None"]
-    ctx.ob("C11.R5", EF, "Impute._get_imputation", comps[0] if comps else gi, "the statistic is computed over the values that are not None", ok)
+    helpers = _missing_helpers(ctx)
+    kinds = set()
+    ok = False
+    if len(comps) == 1 and len(comps[0].generators[0].ifs) == 1:
+        t_ = comps[0].generators[0].ifs[0]
+        tv = unparse(comps[0].generators[0].target)
+        if unparse(t_) == f"{tv} is not None":
+            ok, _k = True, kinds.add("none")
+        elif isinstance(t_, ast.UnaryOp) and isinstance(t_.op, ast.Not) and _miss_kind(t_.operand, helpers) and unparse(t_.operand.args[0]) == tv:
+            ok, _k = True, kinds.add(_miss_kind(t_.operand, helpers))
+    ctx.ob("C11.R5", EF, "Impute._get_imputation", comps[0] if comps else gi, "the statistic is computed over the values that are not missing (not None; not NaN where the None-or-NaN predicate is used)", ok)
     fn = ctx.fn(EF, "Impute.filter")
     loops = [x for x in walk_shallow(fn) if isinstance(x, ast.For) and isinstance(x.iter, ast.Call) and call_name(x.iter) == "chain"]
     ctx.floor("C11.R5", "apply loop in Impute.filter", len(loops), 1)
@@ -194,16 +226,27 @@ def r5_missing(ctx):
         okk = bool(stores)
         for s_ in stores:
             gs = [t for t, p in guards_of(s_, node) if p]
-            firsts = [unparse(g.values[0]) if isinstance(g, ast.BoolOp) and isinstance(g.op, ast.And) else unparse(g) for g in gs]
-            okk = okk and any(f.endswith(" is None") for f in firsts)
-        ctx.ob("C11.R5", EF, "Impute.filter", node, f"{arm}: a value is replaced only when it `is None`", okk, stmt=f"replace guard {arm}")
+            ks = {_miss_kind(g, helpers) for g in gs} - {None}
+            kinds |= ks
+            okk = okk and bool(ks)
+        ctx.ob("C11.R5", EF, "Impute.filter", node, f"{arm}: a value is replaced only when it is missing", okk, stmt=f"replace guard {arm}")
         flags = [x for st in node.body for x in walk_shallow(st) if isinstance(x, ast.Assign) and isinstance(x.targets[0], ast.Subscript) and unparse(x.value) == "1"]
         okf = True
         for f in flags:
             gs = [t for t, p in guards_of(f, node) if p]
-            firsts = [unparse(g.values[0]) if isinstance(g, ast.BoolOp) and isinstance(g.op, ast.And) else unparse(g) for g in gs]
-            okf = okf and any(x.endswith(" is None") for x in firsts)
+            ks = {_miss_kind(g, helpers) for g in gs} - {None}
+            kinds |= ks
+            okf = okf and bool(ks)
         ctx.ob("C11.R5", EF, "Impute.filter", node, f"{arm}: the missingness indicator is raised only for replaced values", okf, stmt=f"indicator guard {arm}")
+    # whether a feature gets an indicator column is decided with the same notion of missing: any(map(<helper>, col)) / any([c is None for c in col])
+    for a_ in [c for c in ast.walk(fn) if isinstance(c, ast.Call) and call_name(c) == "any" and len(c.args) == 1]:
+        x = a_.args[0]
+        if isinstance(x, ast.Call) and call_name(x) == "map" and len(x.args) == 2 and isinstance(x.args[0], ast.Name):
+            kinds.add(x.args[0].id if x.args[0].id in helpers else f"?{x.args[0].id}")
+        elif isinstance(x, (ast.ListComp, ast.GeneratorExp)):
+            kinds.add(_miss_kind(x.elt, helpers) or f"?{unparse(x.elt)}")
+    ctx.ob("C11.R5", EF, "Impute.filter", fn, "one notion of 'missing' at every site of Impute: the statistic, the indicator decision, the replacement and the raised indicator all use the same test "
+           "(a NaN skipped by one and kept by another poisons the statistic or is flagged without being replaced)", len(kinds) == 1, detail={"tests": sorted(map(str, kinds))}, stmt="one missing predicate")
 
 
 def r6_statistic_table(ctx):
@@ -378,7 +421,7 @@ def r10_apply_guards(ctx):
         m += 1
         k = unparse(st.value.slice)
         T_ = st.value.value.id
-        ok = any(pol and unparse(t) == f"{k} in {T_}" for t, pol in all_guards(st, imf)) and any(pol and unparse(t).endswith("is None") for t, pol in all_guards(st, imf))
+        ok = any(pol and unparse(t) == f"{k} in {T_}" for t, pol in all_guards(st, imf)) and any(pol and _miss_kind(t, _missing_helpers(ctx)) for t, pol in all_guards(st, imf))
         ctx.ob("C11.R10", EF, "Impute.filter", st, "a value is replaced only if it is missing and a statistic exists for its feature", ok, detail={"key": k})
     ctx.floor("C11.R10", "replacement statements in Impute.filter", m, 2)
 
@@ -615,9 +658,18 @@ def write_through(ctx, rule):
         by_truth = [b for b in ast.walk(f_) if isinstance(b, ast.BoolOp) and isinstance(b.op, ast.Or) and any("self._values" in unparse(v) for v in b.values)]
         ctx.ob(rule, RW, f"SparseDense.{name}", (by_truth or [f_])[0], "a stored value (None, 0.0, '') is returned as stored: the default for absent positions is not chosen by truthiness (`x or 0`)", not by_truth,
                stmt=f"SparseDense.{name} default")
+    # copies (Mutable copies every row before Scale / Impute write to it): a copy carries every stored entry -- a value-dependent filter drops stored None / 0 / '',
+    # which then read back as the default 0 (a missing value becomes a number, an explicit 0 an absent position)
+    for c in ctx.model.classes:
+        if c.rel != RW or "copy" not in c.methods:
+            continue
+        f_ = c.methods["copy"]
+        filt = [x for x in ast.walk(f_) if (isinstance(x, ast.comprehension) and x.ifs) or (isinstance(x, ast.Call) and call_name(x) in ("filter", "compress", "filterfalse"))]
+        ctx.ob(rule, RW, f"{c.name}.copy", next((x for x in filt if hasattr(x, "lineno")), f_.body[-1]), "the copy of a row carries every stored entry (no value-dependent filter)", not filt, stmt=f"{c.name}.copy complete")
 
 
 CONTROLS = [
+    ("SparseDense.copy drops falsy values", "coba/pipes/rows.py", M.replace_expr("SparseDense.copy", "self._values.copy()", "{k: v for k, v in self._values.items() if v}"), "C11.R11"),
     ("SparseDense reads a stored None as 0", "coba/pipes/rows.py", M.replace_expr("SparseDense.__getitem__", "self._values.get(key, 0)", "self._values.get(key) or 0"), "C11.R11"),
     ("Mutable shallow-copies slotted rows", EF, M.replace_expr("Mutable.filter", "context.copy()", "__import__('copy').copy(context)"), "C11.R13"),
     ("Mutable passes mutable containers through", EF, M.replace_stmt("Mutable.filter", M.text_has("new['context'] = list(new['context'])"), "if not isinstance(new['context'], list): new['context'] = list(new['context'])"), "C11.R13"),
@@ -626,7 +678,7 @@ CONTROLS = [
     ("Scale takes a missing first value for a non-numeric feature", EF, M.replace_expr("Scale.filter", "isinstance(v, (int, float)) or v is None", "isinstance(v, (int, float))", nth=0), "C11.R12"),
     ("SparseDense keeps zeros implicit", "coba/pipes/rows.py", M.replace_stmt("SparseDense.__setitem__", M.text_has("self._values[key] = value"), "if value != 0: self._values[key] = value"), "C11.R11"),
     ("dense apply does not skip None", EF, M.replace_stmt("Scale.filter", M.text_has("if context[i] is not None: context[i] = (context[i] + shift) * scale"), "context[i] = (context[i] + shift) * scale"), "C11.R10"),
-    ("sparse impute without statistic guard", EF, M.replace_expr("Impute.filter", "v is None and k in imputations", "v is None", nth=1), "C11.R10"),
+    ("sparse impute without statistic guard", EF, M.replace_expr("Impute.filter", "_is_missing(v) and k in imputations", "_is_missing(v)", nth=1), "C11.R10"),
     ("fit keeps NaN", EF, M.replace_expr("Scale._get_shift_and_scale", "[v for v in values if v is not None and v == v]", "[v for v in values if v is not None]"), "C11.R6"),
     ("maxabs adds the shift through int.__add__", EF, M.replace_expr("Scale._scale_value", "max((abs(v + shift) for v in values))", "max(map(abs, map(shift.__add__, values)))"), "C11.R6"),
     ("scale computed with the configured shift keyword instead of the fitted shift", EF, M.replace_expr("Scale._get_shift_and_scale", "self._scale_value(values, shift)", "self._scale_value(values, self._shift)"), "C11.R6"),
@@ -638,6 +690,8 @@ CONTROLS = [
     ("apply to the remainder only", EF, M.replace_expr("Scale.filter", "chain(fitting_interactions, remaining_interactions)", "remaining_interactions", nth=2), "C11.R1"),
     ("scale the actions", EF, M.replace_stmt("Scale.filter", M.simple_has("new['context'] = (new['context'] + shift) * scale"), "new['actions'] = (new['context'] + shift) * scale"), "C11.R2"),
     ("scale result dropped", EC, M.replace_stmt("Environments.scale", M.text_has("for t in targets"), "for t in targets:\n    envs = self.filter(Scale(shift, scale, t, using))\nreturn envs"), "C11.R4"),
-    ("impute overwrites present values", EF, M.replace_expr("Impute.filter", "v is None and k in imputations", "k in imputations"), "C11.R5"),
+    ("impute overwrites present values", EF, M.replace_expr("Impute.filter", "_is_missing(v) and k in imputations", "k in imputations"), "C11.R5"),
+    ("the statistic keeps NaN while the replacement treats it as missing", EF, M.replace_expr("Impute._get_imputation", "not _is_missing(v)", "v is not None"), "C11.R5"),
+    ("missing means None only in the helper", EF, M.replace_expr("_is_missing", "value is None or value != value", "value is None"), "C11.R5"),
     ("isinstance with or", "coba/pipes/filters.py", M.replace_expr("Flatten.filter", "isinstance(first, Dense)", "isinstance(first, Dense or tuple)"), "C11.R3"),
 ]
